@@ -192,7 +192,10 @@ CLAIMED["C11"] = dict(
         "enoughCopies equals the statement's replica-count condition; setVolumeWritable / removeFromWritable keep the writable list a set; isAllWritable is true exactly "
         "when no registered replica reports the volume read-only; ensureCorrectWritables and SetVolumeAvailable add a volume to the writable list only after "
         "enoughCopies, isAllWritable and the oversized state were asked for that volume id and allowed it, and remove it when copies or writability fail; "
-        "RegisterVolume registers the server, records the oversized state on every path (deferred call) and Lookup returns the registered list.",
+        "RegisterVolume registers the server, records the oversized state on every path (deferred call) and Lookup returns the registered list. Guards on the "
+        "withdrawing side: SetVolumeUnavailable takes a disconnected server out of the list, never offers the volume and withdraws it when fewer replicas remain than "
+        "the setting asks for; UnRegisterVolume takes the server out, forgets its read-only / oversized reports, re-evaluates the writable state for exactly that "
+        "volume and drops the volume with its last server; SetVolumeCapacityFull withdraws the volume.",
    note="What a server reports about a volume (DataNode.GetVolumesById over the disk tree) and the oversized / read-only bookkeeping (volumesBinaryState) are abstract; "
         "that removeFromWritable leaves no occurrence of the id (needs the duplicate-freeness at two indices) is not proved - all solvers give up; the heartbeat "
         "sequencing in topology.go / master_grpc_server.go and the history argument are not decided here. One defect repaired (SetVolumeAvailable ignored read-only "
